@@ -34,6 +34,7 @@ type StakeCtrler struct {
 	rwdLedgUpInterval int64
 	lastRwdHash       []byte
 	stakeLimiter      *StakeLimiter
+	checkLimiter      *StakeLimiter // limiter of the mempool-check path; block execution never reads it
 	govParams         ctrlertypes.IGovHandler
 
 	logger tmlog.Logger
@@ -74,6 +75,7 @@ func NewStakeCtrler(config *cfg.Config, govHandler ctrlertypes.IGovHandler, logg
 		rwdLedgUpInterval: int64(10),
 		lastRwdHash:       rwdHashDB.LastRewardHash(),
 		stakeLimiter:      NewStakeLimiter(nil, govHandler.MaxValidatorCnt(), govHandler.MaxIndividualStakeRatio(), govHandler.MaxUpdatableStakeRatio()),
+		checkLimiter:      NewStakeLimiter(nil, govHandler.MaxValidatorCnt(), govHandler.MaxIndividualStakeRatio(), govHandler.MaxUpdatableStakeRatio()),
 		govParams:         govHandler,
 		logger:            logger.With("module", "rigo_StakeCtrler"),
 	}
@@ -138,6 +140,8 @@ func (ctrler *StakeCtrler) BeginBlock(blockCtx *ctrlertypes.BlockContext) ([]abc
 	sort.Sort(PowerOrderDelegatees(ctrler.allDelegatees)) // sort by power
 
 	ctrler.stakeLimiter.Reset(PowerOrderDelegatees(ctrler.allDelegatees),
+		ctrler.govParams.MaxValidatorCnt(), ctrler.govParams.MaxIndividualStakeRatio(), ctrler.govParams.MaxUpdatableStakeRatio())
+	ctrler.checkLimiter.Reset(PowerOrderDelegatees(ctrler.allDelegatees),
 		ctrler.govParams.MaxValidatorCnt(), ctrler.govParams.MaxIndividualStakeRatio(), ctrler.govParams.MaxUpdatableStakeRatio())
 
 	//
@@ -362,8 +366,10 @@ func (ctrler *StakeCtrler) doRewardTo(delegatee *Delegatee, height int64) (*uint
 
 func (ctrler *StakeCtrler) ValidateTrx(ctx *ctrlertypes.TrxContext) xerrors.XError {
 	getDelegatee := ctrler.delegateeLedger.Get
+	stakeLimiter := ctrler.checkLimiter
 	if ctx.Exec {
 		getDelegatee = ctrler.delegateeLedger.GetFinality
+		stakeLimiter = ctrler.stakeLimiter
 	}
 
 	switch ctx.Tx.GetType() {
@@ -441,7 +447,7 @@ func (ctrler *StakeCtrler) ValidateTrx(ctx *ctrlertypes.TrxContext) xerrors.XErr
 			}
 		}
 		if len(ctrler.lastValidators) >= 3 {
-			if xerr := ctrler.stakeLimiter.CheckLimit(_delg, txPower); xerr != nil {
+			if xerr := stakeLimiter.CheckLimit(_delg, txPower); xerr != nil {
 				return xerrors.ErrUpdatableStakeRatio.Wrap(xerr)
 			}
 		}
@@ -473,7 +479,7 @@ func (ctrler *StakeCtrler) ValidateTrx(ctx *ctrlertypes.TrxContext) xerrors.XErr
 		}
 
 		if len(ctrler.lastValidators) >= 3 {
-			if xerr := ctrler.stakeLimiter.CheckLimit(delegatee, -1*s0.Power); xerr != nil {
+			if xerr := stakeLimiter.CheckLimit(delegatee, -1*s0.Power); xerr != nil {
 				return xerrors.ErrUpdatableStakeRatio.Wrap(xerr)
 			}
 		}
